@@ -111,14 +111,34 @@ def handle (toks : List String) : String :=
       let classes := classesOf ytr
       doVotes classes (bossProba classes n preds) draws yte
     | _, _, _, _, _ => "bad-op"
-  | ["cboss", ytr, n, preds, ws, draws, yte] =>
-    match parseLabels? ytr, parseNat? n, parseLabelRows? preds, parseRatList? ws, parseNatList? draws, parseLabels? yte with
-    | some ytr, some n, some preds, some ws, some draws, some yte =>
-      if preds.length ≠ ws.length then "bad-op"
+  | ["cboss", ytr, n, preds, accs, draws, yte] =>
+    match parseLabels? ytr, parseNat? n, parseLabelRows? preds, parseRatList? accs, parseNatList? draws, parseLabels? yte with
+    | some ytr, some n, some preds, some accs, some draws, some yte =>
+      if preds.length ≠ accs.length then "bad-op"
       else
         let classes := classesOf ytr
-        doVotes classes (cbossProba classes n (preds.zip ws)) draws yte
+        let members := cbossFitted (preds.zip accs)
+        s!"w={showRatList (members.map (·.2))} " ++ doVotes classes (cbossProba classes n members) draws yte
     | _, _, _, _, _, _ => "bad-op"
+  | ["bossfit", L, minW] =>
+    match parseNat? L, parseNat? minW with
+    | some L, some minW =>
+      match windowCheck minW L with
+      | .error e => s!"fit={showErr e}"
+      | .ok _ => "fit=ok"
+    | _, _ => "bad-op"
+  | ["stsf", ytr, mcs, mem, yte] =>
+    match parseLabels? ytr, parseLabelRows? mcs, parseMats? mem, parseLabels? yte with
+    | some ytr, some mcs, some mem, some yte =>
+      if mcs.length ≠ mem.length then "bad-op"
+      else
+        let classes := classesOf ytr
+        match stsfProba classes (mcs.zip mem) with
+        | .error e => s!"classes={showLabels classes} proba={showErr e}"
+        | .ok P =>
+          let pred := predictArgmax classes P
+          s!"classes={showLabels classes} proba={showMat P} pred={showPred pred} score={showScore yte pred}"
+    | _, _, _, _ => "bad-op"
   | ["indiv", ytr, preds] =>
     match parseLabels? ytr, parseLabels? preds with
     | some ytr, some preds =>
